@@ -570,7 +570,7 @@ func c18Known(c *Ctx) {
 func init() {
 	register(&Check{
 		ID: "C18", Level: "exploration",
-		Rule: "typed random operator trees over the 15 operators + set / call / obj / const, depth <=4 (quick) / <=5 (thorough), rendered as JSON with every mix of operand forms (plain string, bare number / boolean, obj / const wrappers, operator objects, n-ary flattening of left spines, one-operand not over operator objects), constants of every kind (strings with quotes, backslashes, control and non-ASCII characters; negative, fractional and large numbers), rule arrays and single rules, via ParseJSONRule(set) and via JSONResource; oracle = the GRL must build, carry name / description / salience, and evaluate (sink into a nil interface field + candidate flag) to the reference value of the tree with operands grouped exactly as nested; a table of malformed rules must be rejected by the translator-plus-builder pipeline through every entry point; non-trivial = distinct trees nesting a lower-precedence operator inside a higher one or carrying a string that needs escapes, plus each malformed kind; optional desc / salience omitted at random; malformed rules alone, as only element of a set, in front of and behind a well-formed rule; constants that print alike but differ in kind (\"7\" / 7, \"true\" / true) in otherwise identical rules",
+		Rule: "typed random operator trees over the 15 operators + set / call / obj / const, depth <=4 (quick) / <=5 (thorough), rendered as JSON with every mix of operand forms (plain string, bare number / boolean, obj / const wrappers, operator objects, n-ary flattening of left spines, one-operand not over operator objects), constants of every kind (strings with quotes, backslashes, control and non-ASCII characters; negative, fractional and large numbers), rule arrays and single rules, via ParseJSONRule(set) and via JSONResource; oracle = the GRL must build, carry name / description / salience, and evaluate (sink into a nil interface field + candidate flag) to the reference value of the tree with operands grouped exactly as nested; a table of malformed rules must be rejected by the translator-plus-builder pipeline through every entry point; non-trivial = distinct trees nesting a lower-precedence operator inside a higher one or carrying a string that needs escapes, plus each malformed kind; optional desc / salience omitted at random; malformed rules alone, as only element of a set, in front of and behind a well-formed rule; constants that print alike but differ in kind (\"7\" / 7, \"true\" / true) in otherwise identical rules; 8 named rule sets last (names that are prefixes of one another in both orders, R12..R1, a name mentioned in an earlier description, extreme / negative saliences, non-ASCII descriptions)",
 		Assume: []string{"a one-operand not is logical negation of an operator object (TestJsonNegation); one-operand forms of other operators and of not over obj / plain operands are in neither domain", "plain-string operands are raw GRL text: only atoms are rendered that way", "an integral JSON number denotes an integer"},
 		Cases:  func(t string) int { return tierN(2500, 80000)(t) + len(c18Malformed) + len(c18LookAlikes) + len(c18Sets) },
 		Run:    runC18Case,
